@@ -669,7 +669,7 @@ def case(ctx):
     # ---- applied: compare the preview with the real result
     judge_applied(ctx, p, wt, git, label, before, orig, snap)
     # ---- the same script through a TransformPreview of the identical copy
-    replay_transform_preview(ctx, orig, script_ops(script), refusals, res, git, label, p, before["view"], shapes)
+    replay_transform_preview(ctx, orig, script_ops(script), refusals, res, git, label, p, before["view"], shapes, touched)
     after_view = snap["after_view"]
     nchanged = changed_paths(before["view"], after_view)
     ctx.distinct("applied_end_states", (label, sorted((q, repr(sorted(v.items()))) for q, v in after_view.items() if True)))
@@ -851,7 +851,13 @@ def report_view_diff(ctx, prefix, what, snap, after_view, before_view):
     for lab, paths in sorted(labels.items()):
         sub = {q: snap["view"].get(q) for q in paths[:3]}
         sub2 = {q: after_view.get(q) for q in paths[:3]}
-        ctx.fail("%s:%s" % (prefix, with_mechanism(lab, snap)), "%s (%s): %r" % (what, lab, diff_dicts(sub, sub2, "preview", "applied")), None)
+        touched = snap.get("touched")
+        if touched is not None and lab not in NAMED_LABELS and not lab.endswith(NAMED_LABELS) \
+                and not any(q in touched or any(q.startswith(t + "/") for t in touched if t) for q in paths):
+            key = "%s:path-not-touched-by-the-transform" % lab
+        else:
+            key = with_mechanism(lab, snap)
+        ctx.fail("%s:%s" % (prefix, key), "%s (%s): %r" % (what, lab, diff_dicts(sub, sub2, "preview", "applied")), None)
 
 
 NAMED_LABELS = ("versioned-file-missing-on-disk-not-listed", "two-trans-ids-one-final-path", "-read-at-final-path", "-read-from-tree-at-final-path")
@@ -987,7 +993,7 @@ def judge_applied(ctx, p, wt, git, label, before, orig, snap):
             ctx.fail("preview-vs-applied:%s:%s" % (label, with_mechanism(lab, snap)), "preview.kind(path) != kind on disk after apply: %r" % (items[:4],), None)
 
 
-def replay_transform_preview(ctx, orig, ops, refusals, res, git, label, p, before_view, shapes=()):
+def replay_transform_preview(ctx, orig, ops, refusals, res, git, label, p, before_view, shapes=(), touched=None):
     """Same script on tree.preview_transform() of the identical copy; its preview tree vs the applied result."""
     from breezy.workingtree import WorkingTree
 
@@ -1044,6 +1050,7 @@ def replay_transform_preview(ctx, orig, ops, refusals, res, git, label, p, befor
     known = {v.get("file_id") for v in before_view.values()} | {o.get("file_id") for o in ops} | {None, after_root}
     snap = dict(snap)
     snap["shapes"] = shapes
+    snap["touched"] = touched
     snap["view"] = _mask_fabricated(snap["view"], known)
     after_view = _mask_fabricated(after_view, known)
     if snap["view"] != after_view:
